@@ -18,11 +18,11 @@ PROP_FORMULAS = {
     'C07': ['NoRaise', 'OneOfSix', 'Accounted', 'PutAtMostOnce', 'StatusMatchesEffect', 'TextIsGenerated',
             'FailedCarriesError', 'OptionsPassed'],
     'C08': ['NoRaise', 'Terminates', 'Accounted', 'FetchAtMostOnce', 'SourceOrder', 'CompiledFromAccepted'],
-    'C09': ['NoRaise', 'Accounted', 'AllOrNothing'],
+    'C09': ['NoRaise', 'Accounted', 'AllOrNothing', 'BadKeepStatus'],
     'C10': ['NoRaise', 'FreshMeansUntouched', 'SearcherOrder', 'SearcherSeesSourceTime', 'NoDepsOnlyRequested',
             'GeneratedWhenNeeded', 'OptionsPassed'],
     'C19': ['NoRaise', 'BorrowOnlyFailures', 'FlavourMatch', 'BorrowOrder', 'Verbatim', 'NeverReplaceCompiled',
-            'RequestedStayEligible'],
+            'RequestedStayEligible', 'BorrowedMeansLent', 'TextIsGenerated'],
 }
 ALL_FORMULAS = sorted(set(sum(PROP_FORMULAS.values(), [])))
 
